@@ -35,7 +35,7 @@ EDITS = {
     ],
     "C03": [
         ("revert-double-drop-fix", "runtime/src/result.rs", "    fn from(result: DiplomatResult<T, E>) -> Result<T, E> {\n        // The payload is moved out below; `DiplomatResult`'s own `Drop` must not drop it again\n        let mut result = ManuallyDrop::new(result);", "    fn from(mut result: DiplomatResult<T, E>) -> Result<T, E> {"),
-        ("owned-slice-drop-without-null-check", "runtime/src/slices.rs", "impl<T> Drop for DiplomatOwnedSlice<T> {\n    fn drop(&mut self) {\n        if !self.ptr.is_null() {", "impl<T> Drop for DiplomatOwnedSlice<T> {\n    fn drop(&mut self) {\n        if self.len != 0 || !self.ptr.is_null() {"),
+        ("owned-slice-drop-without-null-check", "runtime/src/slices.rs", "impl<T> Drop for DiplomatOwnedSlice<T> {\n    fn drop(&mut self) {\n        if !self.ptr.is_null() {", "impl<T> Drop for DiplomatOwnedSlice<T> {\n    fn drop(&mut self) {\n        if self.len == 0 || !self.ptr.is_null() {"),
         ("owned-slice-into-box-without-manuallydrop", "runtime/src/slices.rs", "    fn from(x: DiplomatOwnedSlice<T>) -> Self {\n        let x = ManuallyDrop::new(x);", "    fn from(x: DiplomatOwnedSlice<T>) -> Self {"),
         ("callback-destructor-never-runs", "runtime/src/callback.rs", "        if let Some(destructor) = self.destructor {\n            unsafe {\n                (destructor)(self.data);\n            }\n        }", "        let _ = self.destructor;"),
         ("callback-destructor-runs-twice", "runtime/src/callback.rs", "            unsafe {\n                (destructor)(self.data);\n            }", "            unsafe {\n                (destructor)(self.data);\n                if core::mem::size_of::<ReturnType>() == 4 {\n                    (destructor)(self.data);\n                }\n            }"),
@@ -47,9 +47,12 @@ EDITS = {
     "C14": [
         ("c-header-includes-from-hashset", "tool/src/c/header.rs", "use std::collections::BTreeSet;", "use std::collections::HashSet as BTreeSet;"),
         ("env-modules-in-a-hashmap", "core/src/environment.rs", "use std::collections::BTreeMap;", "use std::collections::HashMap as BTreeMap;"),
-        ("generated-at-timestamp-in-c-runtime", "tool/src/c/mod.rs", "    files.add_file(\"diplomat_runtime.h\".into(), runtime.to_string());", "    files.add_file(\"diplomat_runtime.h\".into(), format!(\"// generated at {:?}\\n{}\", std::time::SystemTime::now().duration_since(std::time::UNIX_EPOCH).map(|d| d.as_secs()).unwrap_or(0), runtime));"),
+        ("generated-at-timestamp-in-c-runtime", "tool/src/c/mod.rs", "    files.add_file(\"diplomat_runtime.h\".into(), Runtime.to_string());", "    files.add_file(\"diplomat_runtime.h\".into(), format!(\"// generated at {:?}\\n{}\", std::time::SystemTime::now().duration_since(std::time::UNIX_EPOCH).map(|d| d.as_secs()).unwrap_or(0), Runtime));"),
     ],
     "C04": [
+        # (dropping the implied &'a T<'b> bound in core/src/ast/lifetimes.rs is not listed: lowering then rejects the module
+        #  itself ("Method should explicitly include this lifetime bound"), so nothing unsafe is generated)
+        ("js-first-incoming-edge-omitted", "tool/templates/js/method.js.jinja", "        {%- for incoming_edge in lifetime_info.incoming_edges.iter() %}\n        {%- if !loop.first %}, {% endif -%} {{self::display_lifetime_edge(incoming_edge)}}\n        {%- endfor -%}", "        {%- for incoming_edge in lifetime_info.incoming_edges.iter().skip(1) %}\n        {%- if !loop.first %}, {% endif -%} {{self::display_lifetime_edge(incoming_edge)}}\n        {%- endfor -%}"),
         ("longer-shorter-swapped", "core/src/hir/methods/borrowing_param.rs", "                            .all_longer_lifetimes(lt)\n                            .collect(),", "                            .all_shorter_lifetimes(lt)\n                            .collect(),"),
         ("js-registers-borrowed-returns-for-destruction", "tool/templates/js/opaque.js.jinja", "        if (this.#selfEdge.length === 0) {", "        if (this.#selfEdge.length !== 0 || true) {"),
     ],
